@@ -16,7 +16,7 @@ func c01GenCfg(tp *Tape, thorough bool) *GenCfg {
 		InlinePct: 30, TagPct: 20, CondPct: 35, TrackingPct: 15, NonASCII: true,
 	}
 	if thorough {
-		c.MaxNodes, c.MaxStmts, c.MaxDepth = 8, 8, 5
+		c.MaxNodes, c.MaxStmts, c.MaxDepth, c.MaxTotal = 8, 7, 5, 70
 	}
 	// swarm: switch features off / change weights per world
 	if tp.Chance(30, "sw.noopts") {
@@ -67,6 +67,10 @@ func c01World(tp *Tape, env *Env) (*Plan, *Violation) {
 		maxOps = 64
 	}
 	plan := &Plan{Harness: 1, Property: "C01", Program: prog, Layout: &layout, World: w}
+	maxLeaves := 24
+	if env.Thorough {
+		maxLeaves = 64
+	}
 
 	// enumerate the choice paths with the model
 	type pathT struct{ choices []int }
@@ -79,7 +83,7 @@ func c01World(tp *Tape, env *Env) (*Plan, *Violation) {
 		pre := work[len(work)-1]
 		work = work[:len(work)-1]
 		modelRuns++
-		if modelRuns > 400 || len(leaves) >= 64 {
+		if modelRuns > 400 || len(leaves) >= maxLeaves {
 			exhaustive = false
 			break
 		}
